@@ -44,6 +44,21 @@ def get_cell_importances(parser):
     return imp_dict
 
 
+def get_cell_parameter_cards(parser):
+    """Names of the data cards that give geometry-related cell parameters
+    (U, LAT, FILL, TRCL and their starred forms) for all the cells at once.
+
+    :param mip.MIP parser: the MIP parser.
+    :returns: the list of the names of such cards, in the order of the input.
+    """
+    names = []
+    for card in parser.cards(blocks='d', skipcomments=True):
+        name = card.parts()[1].lower().strip().rstrip('=').strip()
+        if name in ('u', 'lat', 'fill', '*fill', 'trcl', '*trcl'):
+            names.append(name)
+    return names
+
+
 if __name__ == '__main__':
     from sys import argv
     from mcrp_splitters import InputSplitter
